@@ -17,7 +17,7 @@
 EXTENDS WriterAbs, Json, SequencesExt
 
 CONSTANTS RelW0,     \* writer reliable
-          VolW0,     \* writer durability volatile
+          VolW0,     \* writer durability explicitly Volatile
           Depth,     \* History KeepLast depth
           MaxWrites, MaxSteps,
           GenK
@@ -82,20 +82,22 @@ Write(single) ==
   /\ Log([a |-> "Write", single |-> single, big |-> FALSE])
 
 (* ---- Writer::update_reader_proxy / reader_lost ---- *)
-Match(r, kind) ==
-  /\ LET compatible == ~(kind = "rel" /\ ~RelW0)
+\* rtl: the reader requests TransientLocal.  compliance_failure_wrt (RxO) comes first; a new proxy gets
+\* pending GAP for everything written so far unless the writer serves history AND the reader asked for it.
+Match(r, kind, rtl) ==
+  /\ LET compatible == ~(kind = "rel" /\ ~RelW0) /\ ~(rtl /\ VolW0)
          new == compatible /\ ~pPres[r]
      IN /\ pPres' = [pPres EXCEPT ![r] = @ \/ compatible]
         /\ pRel'  = [pRel EXCEPT ![r] = IF new THEN kind = "rel" ELSE @]
         /\ pAck'  = [pAck EXCEPT ![r] = IF new THEN 0 ELSE @]
         /\ pUns'  = [pUns EXCEPT ![r] = IF new THEN {} ELSE @]
-        /\ pGap'  = [pGap EXCEPT ![r] = IF new THEN (IF VolW0 THEN 1..hlast ELSE {}) ELSE @]
+        /\ pGap'  = [pGap EXCEPT ![r] = IF new THEN (IF VolW0 \/ ~rtl THEN 1..hlast ELSE {}) ELSE @]
         /\ pRep'  = [pRep EXCEPT ![r] = IF new THEN FALSE ELSE @]
         \* a re-announcement never changes the kind of a matched reader (driver assumption)
         /\ (pPres[r] => (kind = "rel") = pRel[r])
-  /\ AbsMatchR(r, kind, hb, <<>>, done)
+  /\ AbsMatchR(r, kind, rtl, hb, <<>>, done)
   /\ UNCHANGED <<hb, hfirst, awAct, awUntil, awPend, done>>
-  /\ Log([a |-> "Match", r |-> r, kind |-> kind])
+  /\ Log([a |-> "Match", r |-> r, kind |-> kind, rtl |-> rtl])
 
 \* AckWaiter.reader_acked_or_lost + update_ack_waiters; returns <<awAct', awPend', done'>>
 Waiter(r, ackedBefore, lost) ==
@@ -198,7 +200,7 @@ Wait ==
 
 Next ==
   \/ \E s \in {0} \cup Readers : Write(s)
-  \/ \E r \in Readers, k \in {"rel", "be"} : Match(r, k)
+  \/ \E r \in Readers, k \in {"rel", "be"}, rtl \in BOOLEAN : Match(r, k, rtl)
   \/ \E r \in Readers : Lose(r) \/ Repair(r) \/ RepairDone(r)
   \/ \E r \in Readers, base \in 0..(MaxWrites + 2) :
        \E set \in SUBSET (base .. (IF base + 1 > MaxWrites + 1 THEN MaxWrites + 1 ELSE base + 1)) :
